@@ -306,6 +306,10 @@ def pretty_counter(counter, ctx):
 @register_pretty('enum.Enum')
 def pretty_enum(value, ctx):
     cls = type(value)
+    if value.name not in cls.__members__:
+        # A combination of Flag members (or no member at all) has no
+        # attribute of its own on the class: Perm.R|W, Perm(0).
+        return pretty_call_alt(ctx, cls, args=(value.value, ))
     return classattr(cls, value.name)
 
 
